@@ -139,7 +139,7 @@ def run(prog, tier, res):
     got_pad = []
     for bb, t in takes:
         for path in forward_paths(pan, bb) or []:
-            ats = accept.simplify(path_atoms(psy, path))
+            ats = accept.simplify(path_atoms(psy, path), psy.sym_box)
             if ats is None:
                 continue
             psy.set_path(path[1])
